@@ -18,6 +18,7 @@ var _ = reg("C04_Numerics", C04_Numerics)
 var _ = reg("C04_Signs", C04_Signs)
 var _ = reg("C04_Placement", C04_Placement)
 var _ = reg("C04_Wrappers", C04_Wrappers)
+var _ = reg("C04_Inject", C04_Inject)
 var _ = reg("C04_Regex", C04_Regex)
 
 // parseTotal runs Parse under recover and checks its contract.
@@ -299,4 +300,31 @@ func quoteLit(s string) string {
 		out += string(s[i])
 	}
 	return out + "\""
+}
+
+var injectHeads = []string{"$", "$.a", "$v", "(1)", "(1.5)", "(1 + 2)", "(-$a)", "(-1)", "($.a == 1)", "($.a == 1 && $.b == 2)", "\"s\"", "(1).abs()", "$.a ? (@ > 1)", "$[0]", "$.**", "$.a.b.c", "(1 * $.a)", "($a starts with \"x\")", "(!($.a == 1))", "null", "true"}
+
+var injectTails = []struct {
+	tail  string
+	valid bool
+}{
+	{"[@]", false}, {"[0 to @]", false}, {".b[@.c]", false}, {" ? (last > 0)", false}, {".b ? (@ > last)", false}, {"[last][@]", false},
+	{".b.c[@]", false}, {"[*] ? (@ > 0)[@]", false}, {".x ? (@.y[last] > 0 && last == 1)", false}, {"[0, @]", false},
+	{"[last]", true}, {" ? (@ > 0)", true}, {".b[last]", true}, {"[0 to last]", true}, {".b ? (@[last] > 0)", true}, {"[*] ? (@ > 0)[last]", true},
+}
+
+// C04_Inject: @ outside a filter and last outside a subscript are rejected
+// whatever precedes them: every kind of head expression followed by
+// accessors that contain the misplaced symbol (and the well-placed
+// counterparts are accepted).
+func C04_Inject() {
+	h := injectHeads[nd.Choice(len(injectHeads))]
+	t := injectTails[nd.Choice(len(injectTails))]
+	src := modePrefix() + h + t.tail
+	p, _ := parseTotal("C04/inject", src)
+	if t.valid {
+		nd.Assert(p != nil, "C04/inject/well-placed-symbol-rejected "+t.tail)
+	} else {
+		nd.Assert(p == nil, "C04/inject/misplaced-symbol-accepted "+t.tail)
+	}
 }
